@@ -38,7 +38,7 @@ CLAIMED = {
   'Trusted: Lean kernel, standard axioms; correspondence harness. Known findings F12/F13 (unselected extension forms, tags, pronunciations leak), F5 (sense.word by id).'),
  'C05': (
   'Lean 4 proof that remove() preserves referential integrity and deletes exactly the owned rows (cascade model of schema.sql) + step-by-step correspondence over random histories + SQLite audits',
-  'Props/C05.lean: for every database satisfying the 35 foreign-key clauses of schema.sql (FK), deleteLexicon and remove() (extensions first) again satisfy them (C05_no_dangling, C05_remove_no_dangling); nothing owned by the removed lexicon remains in any of 14 owned tables (C05_nothing_owned_remains); dependencies of other lexicons survive with provider set to NULL (C05_dependency_kept/unlinked); exactly the lexicon and its listed extensions disappear, other lexicon rows are kept unchanged (C05_remove_lexicons); row-level frame theorems say which rows survive (iff); shared tables untouched. Random histories of add / remove / add-ILI over a universe with extensions of extensions, a dependant, two versions and an unrelated lexicon are executed on the real library and the model (agreement after every step), the final observation must equal a fresh database holding the installed lexicons, PRAGMA foreign_key_check / integrity_check must be clean. Completeness of get_lexicon_extensions for deep extension chains is validated by correspondence, not proved. Known finding F12-residue.',
+  'Props/C05.lean: for every database satisfying the 35 foreign-key clauses of schema.sql (FK), deleteLexicon and remove() (extensions first) again satisfy them (C05_no_dangling, C05_remove_no_dangling); nothing owned by the removed lexicon remains in any of 14 owned tables (C05_nothing_owned_remains); dependencies of other lexicons survive with provider set to NULL (C05_dependency_kept/unlinked); exactly the lexicon and its listed extensions disappear, other lexicon rows are kept unchanged (C05_remove_lexicons); row-level frame theorems say which rows survive (iff); shared tables untouched. Random histories of add / remove / add-ILI over a universe with extensions of extensions, a dependant, two versions and an unrelated lexicon are executed on the real library and the model (agreement after every step), the final observation must equal a fresh database holding the installed lexicons, PRAGMA foreign_key_check / integrity_check must be clean. get_lexicon_extensions is closed under extends (C05_extensions_closed), hence after remove() no extension row points at a removed base (C05_remove_no_dangling_base). Known finding F12-residue.',
   'Trusted: Lean kernel, standard axioms; SQLite cascade execution and rowid allocation modelled (max+1), validated by correspondence; Model/Schema obligations tie the table list to schema.sql.'),
  'C06': (
   'Lean 4 proof over a transaction model (statement trace with rollback) that add/remove are atomic at every failure point + fault injection on the real library at every progress/authorizer callback',
@@ -62,7 +62,7 @@ CLAIMED = {
   'Trusted: Lean kernel, standard axioms; Python object identity/hash is outside the model and checked on the real objects. Known finding F5.'),
  'C11': (
   'Lean 4 theorems: relation queries sound and complete w.r.t. declared rows, relation_map keys exact and duplicate-free, closure sound/duplicate-free/terminating, relation_paths simple + correspondence/oracle on cyclic graphs with extensions',
-  'Props/C11.lean: get_synset_relations reports exactly the declared relations visible from the scope with the right name, source, target, lexicon and metadata (C11_synset_relations_sound / _complete up to the DISTINCT of the query), type restriction exact, relation_map has one entry per key, keys exactly those iterated, dc:type distinguishes keys, get_related duplicate-free, closure() terminates (structural), yields only reachable entities and none twice, relation_paths() yields only simple paths and terminates. Completeness of closure (every reachable entity is yielded) is decided by the graph oracle on the real API (partial proof). Real relations()/get_related()/relation_map()/closure()/relation_paths() on generated graphs with cycles, self-loops, parallel relations differing in dc:type and relations added by extensions are compared with model and oracle.',
+  'Props/C11.lean: get_synset_relations reports exactly the declared relations visible from the scope with the right name, source, target, lexicon and metadata (C11_synset_relations_sound / _complete up to the DISTINCT of the query), type restriction exact, relation_map has one entry per key, keys exactly those iterated, dc:type distinguishes keys, get_related duplicate-free, closure() terminates (structural), yields only reachable entities and none twice, relation_paths() yields only simple paths and terminates. closure() is also complete: every entity reachable over the relation is yielded, under an explicit bound relating the fuel to the number of identities and the out-degree (C11_closure_complete, generic lemma closureGen_complete). Real relations()/get_related()/relation_map()/closure()/relation_paths() on generated graphs with cycles, self-loops, parallel relations differing in dc:type and relations added by extensions are compared with model and oracle.',
   'Trusted: Lean kernel, standard axioms; correspondence harness.'),
  'C12': (
   'Lean 4 exact characterisation of expanded relations and of the default expand set (Model/Api.lean) + correspondence/oracle over worlds with expand lexicons',
